@@ -602,6 +602,26 @@ def updateTcPinned {T V : Type} (filterNone : Bool) (dst src : TC (TDm T V) V) :
     (fun acc kv => assocSet kv.1 kv.2 acc) dst.nt
   { dst with td := tdUpdate dst.td src.td, nt := merged }
 
+/-! ## Part G — pytree registration (tensordict/_pytree.py) -/
+
+/-- the pytree context of a tensorclass: `_tensordict_flatten(tc)` — keys of `tc.items()` (the entries of `_tensordict`) and
+`tc.non_tensor_items()` (= `_non_tensordict`) -/
+structure PyCtx (V : Type) where
+  keys : List String
+  nt : NT V
+
+/-- `_pytree.py:_tensordict_flatten` applied to a tensorclass (the values are the entries, in key order) -/
+def pytreeFlatten {T V : Type} (tc : TC (TDm T V) V) : List (Entry T V) × PyCtx V :=
+  (tc.td.entries.map Prod.snd, ⟨tc.td.keys, tc.nt⟩)
+
+/-- `_pytree.py:_tensordict_unflatten` → `_tensorclass_constructor`: a plain tensordict is rebuilt from keys and values, then
+`cls._from_tensordict(result, dict(non_tensor_items))` -/
+def pytreeUnflatten {T V : Type} (fields : List String) (cls : String) (values : List (Entry T V)) (ctx : PyCtx V) :
+    Except Err (TC (TDm T V) V) :=
+  match fromTensordict fields ctx.keys ctx.nt with
+  | .ok nt' => .ok ⟨cls, ⟨ctx.keys.zip values, false⟩, nt'⟩
+  | .error e => .error e
+
 /-- `_non_tensordict` of a regular tensorclass only holds `None` placeholders (values live in `_tensordict` as
 `NonTensorData`); every writer of the model keeps this -/
 def PlaceholdersOnly {T V : Type} (tc : TC (TDm T V) V) : Prop := ∀ kv ∈ tc.nt, kv.2 = none
